@@ -183,6 +183,13 @@ def check(prop, tier, seed, jobs):
                 results.append(r)
     crashes = [r for r in results if r.get('crash')]
     known = load_known()
+    # Lean lemmas (code-independent corollaries over contracts): hash-stamped, re-checked when the file changed
+    from contracts import common as _common
+    lean = subprocess.run([os.path.join(VERIF, 'lean', 'check_lean.sh')] + (['--force'] if tier == 'thorough' and os.environ.get('VERIF_LEAN_FORCE') else []),
+                          capture_output=True, text=True)
+    lean_ok = lean.returncode == 0
+    if not lean_ok:
+        crashes.append({'crash': 'Lean lemma file rejected: ' + (lean.stdout + lean.stderr)[-800:]})
 
     # ------------------------------------------------------------------ deductive part
     clauses = {}            # oid -> aggregate
@@ -376,6 +383,7 @@ def check(prop, tier, seed, jobs):
         'known_findings_reported': sorted({oid for _, oid in known_lines}),
         'samples': samples,
         'repo_tree': repo_state(),
+        'lean_lemmas': {'file': 'lean/Lemmas.lean', 'status': (lean.stdout.strip().splitlines() or ['?'])[-1], 'cited_by_the_contracts_of_this_run': sorted(_common.LEMMAS_USED) or 'see contracts/*.py (lemma(...))'},
         'rewritten_functions': sorted(install.rewritten_texts()),
     }
     if bres or rres:
